@@ -4432,6 +4432,8 @@ def bundle_readpath(P, R, L):
     R.once(blind.blk1_block_cursor, P, R, L)
     R.clause("MRG-1", "the merging iterator makes the child with the strictly smallest (forward) / largest (backward) key current, looking at every child")
     R.once(blind.mrg1_merge_selection, P, R, L)
+    R.clause("ENUM-1", "the hand-written tag decoders (Operation, BlockType, compression type, manifest field tags) invert the enums' discriminants")
+    R.once(blind.enum1_tag_decoders, P, R, L)
 
 
 def bundle_recovery(P, R, L):
@@ -4475,6 +4477,8 @@ def bundle_recovery(P, R, L):
     R.once(blind.grd6b_eof_only_from_a_short_read, P, R, L)
     R.clause("FS-3", "the in-memory file system's rename moves the file (replacing the destination) and remove_file removes it; Ok only when that happened")
     R.once(blind.fs3_memory_rename_and_remove, P, R, L)
+    R.clause("ENUM-1", "the hand-written tag decoders (Operation, BlockType, compression type, manifest field tags) invert the enums' discriminants")
+    R.once(blind.enum1_tag_decoders, P, R, L)
 
 
 def bundle_filter(P, R, L):
